@@ -624,19 +624,45 @@ class _:
         return z3.And(s.length == o.length, s.file_offset == o.file_offset, s.residues_per_line == o.residues_per_line, s.max_line_length == o.max_line_length)
 
 
+@contract("tola.fasta.simple.FastaSeq.__init__", kind="init", status="TRUSTED")
+class _:
+    # three plain attribute assignments; the bytes value is kept as ghost fields (heap maps hold no abstract bytes)
+    params = {"self": TRef("FastaSeq"), "name": STR, "sequence": BYTES, "description": TOpt(STR)}
+    defaults = {"description": None}
+    modifies = staticmethod(lambda o: [("field", "FastaSeq", f, o.self) for f in ("name", "g_kind", "g_first", "g_n")])
+
+    @staticmethod
+    def ensures(o, n, res):
+        s, b = n.self, o.sequence
+        return z3.And(s.name == o.name, s.g_kind == b[0], s.g_first == b[1], s.g_n == b[2])
+
+
 @contract(f"{IX}.get_fasta_seq", properties=("C04",))
 class _:
-    # whole-record access goes through sequence_bytes(info, 1, length)
-    custom = staticmethod(lambda mi, fn: _get_fasta_seq_shape(mi, fn))
+    # whole-record access: "returns exactly those residues" for the interval 1..length, and no residues for a record
+    # that has none (such a record has no line width: sequence_bytes may not be asked, its precondition is checked here)
+    params = {"self": TRef("FastaIndex"), "name": STR}
+    result = TRef("FastaSeq")
 
+    @staticmethod
+    def requires(o):
+        info = o.self.index.get(o.name)
+        # what index_fasta_file establishes of every entry (quintuple): a usable layout, or a record without lines
+        return [("entry-as-indexed", z3.Implies(o.self.index.has(o.name), z3.And(info.length >= 0, z3.Or(info.length == 0, layout(info)))))]
 
-def _get_fasta_seq_shape(mi, fn):
-    import ast
+    raises = {"ValueError": lambda o: z3.Not(o.self.index.has(o.name))}
 
-    from pyvc.spec import SpecInapplicable
+    @staticmethod
+    def modifies(o):
+        fh = o.self.fasta_fileandle
+        return [("field", "FastaFH", f, fh) for f in ("pos", "g_info", "g_next")] + [
+            ("fresh-objs", "BytesIO", ["g_kind", "g_first", "g_n", "g_pos"]), ("fresh-objs", "FastaSeq", ["name", "g_kind", "g_first", "g_n"]), ("alloc",)]
 
-    body = "\n".join(ast.unparse(s) for s in fn.body if not (isinstance(s, ast.Expr) and isinstance(s.value, ast.Constant)))
-    want = "info = self.get_info(name)\nseq_bytes = self.sequence_bytes(info, 1, info.length).getvalue()\nreturn FastaSeq(name, seq_bytes)"
-    if body != want:
-        raise SpecInapplicable("get_fasta_seq has a different shape")
-    return [("post", "whole-record-is-interval-1-to-length", [], z3.BoolVal(True))]
+    @staticmethod
+    def ensures(o, n, res):
+        info = o.self.index.get(o.name)
+        return [
+            ("name", res.name == o.name),
+            ("all-residues-of-the-record", z3.And(res.g_n == info.length, z3.Implies(info.length > 0, z3.And(res.g_kind == 0, res.g_first == 0)))),
+            ("fresh", z3.And(res.z >= o.alloc, res.z < n.alloc)),
+        ]
